@@ -3,6 +3,7 @@ package http
 import (
 	"bytes"
 	"encoding/json"
+	"errors"
 	"fmt"
 	"net/http"
 	"strconv"
@@ -114,6 +115,11 @@ func (w *HttpWorker) Process(data []byte, body []byte) (bool, error) {
 	var httpData *Data
 	if err := json.Unmarshal(data, &httpData); err != nil {
 		return false, err
+	}
+
+	// receiver data may be absent or the JSON literal null
+	if httpData == nil {
+		return false, errors.New("missing receiver data")
 	}
 
 	req, err := http.NewRequest("POST", httpData.Url, bytes.NewReader(body))
